@@ -123,6 +123,14 @@ def roundUp (classes : List Nat) (n : Nat) : Nat :=
 
 def goGrow (classes : List Nat) : Grow := fun oldCap newLen => roundUp classes (nextSliceCap newLen oldCap)
 
+/-- output of byte strings of the decoder machines: hex, or for more than 4096 bytes
+    `~len:fnv1a64` (the harness prints the same) -/
+def hexl (bs : List Byte) : String :=
+  if bs.length ≤ 4096 then hex bs
+  else
+    let h : UInt64 := bs.foldl (fun h b => (h ^^^ b.toUInt64) * 1099511628211) 14695981039346656037
+    s!"~{bs.length}:{h.toNat}"
+
 /-! ### machine states -/
 
 inductive Machine where
@@ -180,21 +188,21 @@ def stepParser (s : Parser) (wr : Option Reader) (ws : List String) : Machine ×
 def stepDecBuf (g : Grow) (b : DecBuf) (ws : List String) : Machine × String :=
   match ws with
   | ["wb", h] =>
-    let (b', e) := b.writeByte g ((unhex h).headD 0); (.decbuf b', s!"{e} {showDec b'}")
+    let (b', e) := b.writeByte g ((payload h).headD 0); (.decbuf b', s!"{e} {showDec b'}")
   | ["w", h] =>
-    let (b', n, e) := b.write g (unhex h); (.decbuf b', s!"{n} {e} {showDec b'}")
+    let (b', n, e) := b.write g (payload h); (.decbuf b', s!"{n} {e} {showDec b'}")
   | ["wm", m, o] =>
     let (b', n, e) := b.writeMatch g (nat! m) (nat! o); (.decbuf b', s!"{n} {e} {showDec b'}")
   | ["wblk", ss, ls] =>
-    let (b', n, k, l, e) := b.writeBlock g ⟨parseSeqs ss, unhex ls⟩
+    let (b', n, k, l, e) := b.writeBlock g ⟨parseSeqs ss, payload ls⟩
     (.decbuf b', s!"{n} {k} {l} {e} {showDec b'}")
   | ["rd", n] =>
-    let (b', q) := b.read (nat! n); (.decbuf b', s!"{hex q} {showDec b'}")
+    let (b', q) := b.read (nat! n); (.decbuf b', s!"{hexl q} {showDec b'}")
   | ["reset"] => let b' := b.reset; (.decbuf b', s!"ok {showDec b'}")
   | ["bae", off] => (.decbuf b, s!"{(b.byteAtEnd (int! off)).toNat}")
   | ["wt", rs] =>
     let (d, k, e) := Decoder.writeTo { buf := b, w := { resps := parseResps rs, got := [] } }
-    (.decbuf d.buf, s!"{k} {errStr e} {hex d.w.got} {showDec d.buf}")
+    (.decbuf d.buf, s!"{k} {errStr e} {hexl d.w.got} {showDec d.buf}")
   | ["dump"] => (.decbuf b, hex b.data)
   | _ => (.decbuf b, "bad-op")
 
@@ -202,17 +210,17 @@ def stepDecoder (g : Grow) (d : Decoder) (ws : List String) : Machine × String 
   let fresh := { d with w := { d.w with got := [] } }
   match ws with
   | ["wb", h] =>
-    let (d', e) := fresh.writeByte g ((unhex h).headD 0)
-    (.decoder d', s!"{errStr e} {hex d'.w.got} {showDec d'.buf}")
+    let (d', e) := fresh.writeByte g ((payload h).headD 0)
+    (.decoder d', s!"{errStr e} {hexl d'.w.got} {showDec d'.buf}")
   | ["w", h] =>
-    let (d', n, e) := fresh.write g (unhex h) 0
-    (.decoder d', s!"{n} {errStr e} {hex d'.w.got} {showDec d'.buf}")
+    let (d', n, e) := fresh.write g (payload h) 0
+    (.decoder d', s!"{n} {errStr e} {hexl d'.w.got} {showDec d'.buf}")
   | ["wblk", ss, ls] =>
-    let (d', n, k, l, e) := fresh.writeBlock g (parseSeqs ss) (unhex ls) 0 0 0
-    (.decoder d', s!"{n} {k} {l} {errStr e} {hex d'.w.got} {showDec d'.buf}")
+    let (d', n, k, l, e) := fresh.writeBlock g (parseSeqs ss) (payload ls) 0 0 0
+    (.decoder d', s!"{n} {k} {l} {errStr e} {hexl d'.w.got} {showDec d'.buf}")
   | ["flush"] =>
     let (d', e) := fresh.flush
-    (.decoder d', s!"{errStr e} {hex d'.w.got} {showDec d'.buf}")
+    (.decoder d', s!"{errStr e} {hexl d'.w.got} {showDec d'.buf}")
   | ["reset", rs] =>
     let d' := d.reset { resps := parseResps rs, got := [] }
     (.decoder d', s!"ok - {showDec d'.buf}")
